@@ -20,7 +20,8 @@ WORK = os.path.join(ROOT, "work")
 SPEC = os.path.join(ROOT, "spec")
 GEN = os.path.join(SPEC, "gen")
 HARNESS = os.path.join(ROOT, "harness")
-EVIDENCE = os.path.join(ROOT, "evidence")
+# VERIF_EVIDENCE: where the evidence of runs against something else than /repo goes (seeded changes)
+EVIDENCE = os.environ.get("VERIF_EVIDENCE", os.path.join(ROOT, "evidence"))
 REPLAYS = os.path.join(EVIDENCE, "replays")
 BIN = os.path.join(HARNESS, "target", "release")
 JAR = "/opt/veriftools/tla/tla2tools.jar"
